@@ -1,19 +1,24 @@
 #!/bin/sh
-# usage: tools/eval_all.sh c06 c08 ...   (evaluates the three external mutants of each id in parallel)
+# usage: [R=r2] tools/eval_all.sh c06 c08 ...   (evaluates the three external mutants of each id in parallel)
+# round 1 lives in /tmp/wt/<id>-out/mutN, later rounds in /tmp/wt/<id>-out/<R>/mutN
+R=${R:-}
 for id in "$@"; do
   P=$(echo $id | tr a-z A-Z)
+  if [ -n "$R" ]; then D=/tmp/wt/$id-out/$R; TAG=ext$(echo $R | tr -d r); else D=/tmp/wt/$id-out; TAG=ext; fi
   ( for k in 1 2 3; do
-      if [ -f /tmp/wt/$id-out/mut$k/patch.diff ]; then
-        python3 /verif/tools/eval_mutant.py $P /tmp/wt/$id-out/mut$k /tmp/wt/$id --keep-as $id-ext-$k 2>/dev/null | grep '^{' > /tmp/wt/$id-out/eval$k.json
+      if [ -f $D/mut$k/patch.diff ]; then
+        python3 /verif/tools/eval_mutant.py $P $D/mut$k /tmp/wt/$id --keep-as $id-$TAG-$k 2>/dev/null | grep '^{' > $D/eval$k.json
       fi
     done ) &
 done
 wait
-for id in "$@"; do for k in 1 2 3; do python3 - "$id" "$k" <<'PY'
+for id in "$@"; do
+  if [ -n "$R" ]; then D=/tmp/wt/$id-out/$R; else D=/tmp/wt/$id-out; fi
+  for k in 1 2 3; do python3 - "$id" "$k" "$D" <<'PY'
 import json,sys
-i,k=sys.argv[1],sys.argv[2]
+i,k,D=sys.argv[1],sys.argv[2],sys.argv[3]
 try:
-    d=json.load(open('/tmp/wt/%s-out/eval%s.json'%(i,k)))
+    d=json.load(open('%s/eval%s.json'%(D,k)))
     print(i,k,'confirmed=%s detected=%s %s %s'%(d.get('confirmed'),d.get('detected'),d.get('violation_keys'),d.get('error') or ''))
     if not d.get('confirmed'): print('   ', d.get('tests_pass_with_mutant'), d.get('demo_fails_with_mutant'), d.get('demo_passes_without'), d.get('suite_with_mutant'), d.get('demo_tail_with_mutant','')[-150:])
 except Exception as e: print(i,k,'no result',e)
